@@ -388,7 +388,7 @@ func c03GateSwap(r *core.Run, rule string) {
 		var upd *ssa.MapUpdate
 		core.InstrsOf(fn, func(in ssa.Instruction) {
 			if mu, ok := in.(*ssa.MapUpdate); ok {
-				if _, isV := core.FieldLoad(mu.Map, "virtualBinOps"); isV {
+				if _, _, isV := fieldLoadBy(mu.Map, isBinOpTokenMap); isV {
 					upd = mu
 				}
 			}
@@ -546,14 +546,14 @@ func c03GateSwap(r *core.Run, rule string) {
 		both := false
 		for _, in := range sb.Instrs {
 			if mu, ok := in.(*ssa.MapUpdate); ok {
-				if _, isS := core.FieldLoad(mu.Map, "swappedBlocks"); isS {
+				if _, _, isS := fieldLoadBy(mu.Map, isBlockBoolMap); isS {
 					both = true
 				}
 			}
 		}
 		r.Check(both, rule, fnm+"#operator-and-branches-together", upd.Pos(), "operator rewrite and branch exchange are recorded together", "the operator is rewritten without exchanging the branches (or vice versa)")
 	}
-	r.Floor(rule, "branch-swap computation (writes virtualBinOps)", n, 1)
+	r.Floor(rule, "branch-swap computation (writes the map[*ssa.BinOp]token.Token of operator rewrites)", n, 1)
 }
 
 // ---- GATE: commutativity
@@ -627,44 +627,103 @@ func c03GateComm(r *core.Run, rule string) {
 			}
 			n++
 			fnm := core.FuncName(fn)
-			gate, ungated := tokensGating(fn, c.Block(), "Op")
-			bad := ungated
-			for _, g := range gate {
-				if !allowed[g] {
-					bad = true
+			// the boolean that permits the exchanged attempt: a value v with "v is true" on every path to the call.
+			// It is a phi of constants (computed inline) or the result of a predicate helper; in both cases the
+			// places where it becomes true are examined in the function that computes it.
+			type src struct {
+				f   *ssa.Function
+				blk *ssa.BasicBlock
+			}
+			var srcs []src
+			unknown := ""
+			var collect func(f *ssa.Function, v ssa.Value, at *ssa.BasicBlock, d int)
+			collect = func(f *ssa.Function, v ssa.Value, at *ssa.BasicBlock, d int) {
+				if d > 6 {
+					unknown = "permission too deeply nested"
+					return
+				}
+				switch x := v.(type) {
+				case *ssa.Const:
+					if x.Value != nil && x.Value.String() == "true" {
+						srcs = append(srcs, src{f, at})
+					}
+				case *ssa.Phi:
+					for i, e := range x.Edges {
+						collect(f, e, x.Block().Preds[i], d+1)
+					}
+				case *ssa.Call:
+					g := core.StaticCallee(&x.Call)
+					if g == nil || !p.IsProdFunc(g) || g.Blocks == nil {
+						unknown = "permission computed by " + core.Canon(x)
+						return
+					}
+					for _, ret := range core.Returns(g) {
+						collect(g, ret.Results[0], ret.Block(), d+1)
+					}
+				default:
+					unknown = "permission computed from " + core.Canon(v)
 				}
 			}
-			r.Check(!bad, rule, fnm+"#exchanged-match("+tokNames(gate)+")", c.Pos(), "operands are matched crosswise only for commutative operators", "operands are matched crosswise for operators {"+tokNames(gate)+"}")
-			// arithmetic operators need the numeric, non-string test: the stores of allowSwap=true under those tokens
-			_ = numericGuard
-		})
-		// allowSwap = true under ADD/MUL/AND/OR/XOR requires the numeric test
-		core.InstrsOf(fn, func(in ssa.Instruction) {
-			ph, ok := in.(*ssa.Phi)
-			if !ok || ph.Comment != "allowSwap" {
-				return
-			}
-			for i, e := range ph.Edges {
-				c, ok := e.(*ssa.Const)
-				if !ok || c.Value == nil || c.Value.String() != "true" {
+			found := false
+			for _, b := range fn.Blocks {
+				if len(b.Instrs) == 0 {
 					continue
 				}
-				pred := ph.Block().Preds[i]
-				gate, _ := tokensGating(fn, pred, "Op")
+				ifi, ok := b.Instrs[len(b.Instrs)-1].(*ssa.If)
+				if !ok {
+					continue
+				}
+				base, neg := core.StripNot(ifi.Cond)
+				if neg {
+					continue
+				}
+				switch base.(type) {
+				case *ssa.Phi, *ssa.Call:
+				default:
+					continue
+				}
+				if bt, isB := base.Type().Underlying().(*types.Basic); !isB || bt.Kind() != types.Bool {
+					continue
+				}
+				ok1, n1, _ := core.MustPass(fn, c.Block(), core.BoolGuard(func(x ssa.Value) bool { return x == base }, true))
+				if ok1 && n1 > 0 {
+					found = true
+					collect(fn, base, b, 0)
+				}
+			}
+			if !found {
+				gate, ungated := tokensGating(fn, c.Block(), "Op")
+				bad := ungated
+				for _, g := range gate {
+					if !allowed[g] {
+						bad = true
+					}
+				}
+				r.Check(!bad, rule, fnm+"#exchanged-match("+tokNames(gate)+")", c.Pos(), "operands are matched crosswise only for commutative operators", "operands are matched crosswise for operators {"+tokNames(gate)+"}")
+				return
+			}
+			if unknown != "" {
+				r.Fail(rule, fnm+"#exchanged-match", c.Pos(), "cannot follow how the crosswise match is permitted: "+unknown)
+				return
+			}
+			r.Check(len(srcs) > 0, rule, fnm+"#exchanged-match/permission-sources", c.Pos(), "the permission for the crosswise match is set to true somewhere", "the crosswise match is never permitted (dead) or its permission is not a constant")
+			for _, sc := range srcs {
+				gate, ungated := tokensGating(sc.f, sc.blk, "Op")
+				bad := ungated
 				arith := false
 				for _, g := range gate {
+					if !allowed[g] {
+						bad = true
+					}
 					if g != token.EQL && g != token.NEQ {
 						arith = true
 					}
 				}
-				if !arith {
-					continue
+				r.Check(!bad, rule, fnm+"#exchanged-match("+tokNames(gate)+")", c.Pos(), "operands are matched crosswise only for commutative operators", "operands are matched crosswise for operators {"+tokNames(gate)+"} (permission set in "+core.FuncName(sc.f)+")")
+				if arith {
+					ok1, n1, _ := core.MustPass(sc.f, sc.blk, numericGuard)
+					r.Check(ok1 && n1 > 0, rule, fnm+"#arith-exchange-numeric-only("+tokNames(gate)+")", c.Pos(), "crosswise matching of arithmetic operands only for numeric types", "crosswise matching of "+tokNames(gate)+" operands without the numeric-type test: string a+b matches b+a (permission set in "+core.FuncName(sc.f)+")")
 				}
-				ok1, n1, _ := core.MustPass(fn, pred, func(cond ssa.Value) (bool, bool) {
-					m, onTrue := numericGuard(cond)
-					return m, onTrue
-				})
-				r.Check(ok1 && n1 > 0, rule, core.FuncName(fn)+"#arith-exchange-numeric-only("+tokNames(gate)+")", ph.Pos(), "crosswise matching of arithmetic operands only for numeric types", "crosswise matching of "+tokNames(gate)+" operands without the numeric-type test: string a+b matches b+a")
 			}
 		})
 	}
@@ -682,7 +741,8 @@ func c03GateHoist(r *core.Run) {
 		var upd *ssa.MapUpdate
 		core.InstrsOf(fn, func(in ssa.Instruction) {
 			if mu, ok := in.(*ssa.MapUpdate); ok {
-				if _, isH := core.FieldLoad(mu.Map, "hoistedInstrs"); isH {
+				// the hoist mark: an instruction-set entry made for a *call*
+				if _, _, isH := fieldLoadBy(mu.Map, isInstrBoolMap); isH && strings.HasSuffix(core.Unwrap(mu.Key).Type().String(), "ssa.Call") {
 					upd = mu
 				}
 			}
@@ -896,5 +956,5 @@ func c03GateHoist(r *core.Run) {
 			r.Check(nType >= 2, rule, pn+"#volatile-length-excluded", ret.Pos(), "len/cap of maps and channels are not pure", "len/cap of a map or channel is considered pure: it would be hoisted out of a loop that changes it")
 		}
 	}
-	r.Floor(rule, "hoisting decision (writes hoistedInstrs)", n, 1)
+	r.Floor(rule, "hoisting decision (writes a map[ssa.Instruction]bool mark)", n, 1)
 }
